@@ -105,6 +105,10 @@ void accepted(Ctx& ctx, int depth, int32_t w, int32_t h, int palForm, uint32_t i
 	BitmapFile f;
 	auto o = mc::guarded([&] { f = readBmp(bytes); });
 	ctx.transition();
+	// acceptance is demanded of the form the library itself writes (full colour table, both colour counts 0): the round trips need
+	// it. The other spellings (a used-colour count, a short colour table, an important-colour count) need not be accepted
+	ctx.count(palForm == 0 || b.usedColors == (1u << depth) ? "forms/full-palette-tried" : "forms/partial-palette-tried");
+	if (o.cls != 'R' && (palForm != 0 || imp != 0)) { ctx.count("forms/optional-spelling-refused"); return; }
 	if (o.cls != 'R') { bad("accepted-form-rejected", o.what); return; }
 	auto v = mc::guarded([&] { f.Validate(); });
 	if (v.cls != 'R') { bad("read-result-fails-validation", v.what); return; }
